@@ -8,7 +8,7 @@
      pdiff a e           partial derivative with respect to the atom a
      gateaux s e         THE SPECIFICATION  sum_a pdiff a e * (direction atom of a), a ranging over the atoms D^al u
      dual F              F[eps]/(eps^2) as pairs; dvev rd e = evaluation of e over it (functions by first-order expansion)
-     lin_poly / lin_series / lin_integrand    the arms of linearize on one integrand (eps fresh)
+     lin_integrand = lin_series   linearize on one integrand: d/d(eps) at eps = 0 (eps fresh); lin_poly = expansion arm
      model_linearize     linearize on a form = list of (region, integrand); model_newton = NewtonIteration
      vdef rho e          the denominators of e do not vanish at the valuation rho                                     *)
 From Coq Require Import String ZArith QArith List Bool Arith Field_theory Ring_theory.
@@ -71,74 +71,94 @@ Theorem C09_dual_environment :
 Proof. exact dual_env_field. Qed.
 Print Assumptions C09_dual_environment.
 
-(* --- what linearize computes on one integrand (both arms) has the value of the Gateaux derivative *)
+(* --- what linearize computes on one integrand (d/d(eps) at eps = 0, code since f6a20ce) has the value of the
+       Gateaux derivative -- polynomial, rational and elementary integrands alike *)
 Theorem C09_linearize_integrand :
-  forall (S : dfield) eps s e r g h, char0 S -> has_const eps e = false -> vdefS S e ->
+  forall (S : dfield) eps s e r g h, has_const eps e = false ->
     lin_integrand eps s e = Some r -> gateaux s e = Some g -> fwd s e = Some h -> ev S r = ev S g.
 Proof. exact linearize_dfield. Qed.
 Print Assumptions C09_linearize_integrand.
+
+(* --- the expansion / eps^1-coefficient arm (what the former series-based code did on polynomials) is an equal alternative *)
+Theorem C09_polynomial_arm_agrees :
+  forall (F : Type) (f0 f1 : F) (fadd fmul fsub : F -> F -> F) (fopp : F -> F) (fdiv : F -> F -> F) (finv : F -> F),
+    field_theory f0 f1 fadd fmul fsub fopp fdiv finv (@eq F) ->
+    (forall p : positive, phi F f0 f1 fadd fmul fopp (Zpos p) <> f0) ->
+    forall (E : fname -> F -> F) (P : F -> F -> F) eps s rho e r r' h,
+      has_const eps e = false -> vdef F f0 f1 fadd fmul fsub fopp fdiv finv E P rho e ->
+      lin_poly eps s e = Some r -> lin_integrand eps s e = Some r' -> fwd s e = Some h ->
+      vev F f1 fadd fmul fsub fopp fdiv finv (phi F f0 f1 fadd fmul fopp) E P rho r
+      = vev F f1 fadd fmul fsub fopp fdiv finv (phi F f0 f1 fadd fmul fopp) E P rho r'.
+Proof. exact lin_poly_agrees. Qed.
+Print Assumptions C09_polynomial_arm_agrees.
 
 (* --- the result does not depend on the auxiliary name *)
 Theorem C09_name_independent :
   forall (F : Type) (f0 f1 : F) (fadd fmul fsub : F -> F -> F) (fopp : F -> F) (fdiv : F -> F -> F) (finv : F -> F),
     field_theory f0 f1 fadd fmul fsub fopp fdiv finv (@eq F) ->
-    (forall p : positive, phi F f0 f1 fadd fmul fopp (Zpos p) <> f0) ->
     forall (E : fname -> F -> F) (P : F -> F -> F) eps1 eps2 s rho e r1 r2 h,
-      has_const eps1 e = false -> has_const eps2 e = false ->
-      vdef F f0 f1 fadd fmul fsub fopp fdiv finv E P rho e -> fwd s e = Some h ->
+      has_const eps1 e = false -> has_const eps2 e = false -> fwd s e = Some h ->
       lin_integrand eps1 s e = Some r1 -> lin_integrand eps2 s e = Some r2 ->
       vev F f1 fadd fmul fsub fopp fdiv finv (phi F f0 f1 fadd fmul fopp) E P rho r1
       = vev F f1 fadd fmul fsub fopp fdiv finv (phi F f0 f1 fadd fmul fopp) E P rho r2.
 Proof. exact lin_name_independent. Qed.
 Print Assumptions C09_name_independent.
 
-(* --- forms: integral by integral, the integrand is replaced by its directional derivative or the integral
-       is dropped and the derivative vanishes *)
+(* --- forms, FULL STRENGTH (code since 910ffef): linearize always returns a form; integral by integral the integrand
+       is replaced by its directional derivative, or the integral is dropped and that derivative vanishes; the zero
+       form ([]) is returned exactly when every integral is dropped *)
+Theorem C09_linearize_total :
+  forall (F : Type) (f0 f1 : F) (fadd fmul fsub : F -> F -> F) (fopp : F -> F) (fdiv : F -> F -> F) (finv : F -> F)
+         (Fth : field_theory f0 f1 fadd fmul fsub fopp fdiv finv (@eq F)),
+    (forall p : positive, phi F f0 f1 fadd fmul fopp (Zpos p) <> f0) ->
+    forall (E : fname -> F -> F) (P : F -> F -> F) eps s rho f,
+      form_ok F eps s rho f ->
+      exists parts, model_linearize eps s f = LOk parts /\
+                    lin_rel F f0 f1 fadd fmul fsub fopp fdiv finv E P s rho f parts.
+Proof. exact model_linearize_total. Qed.
+Print Assumptions C09_linearize_total.
+
 Theorem C09_linearize_form :
   forall (F : Type) (f0 f1 : F) (fadd fmul fsub : F -> F -> F) (fopp : F -> F) (fdiv : F -> F -> F) (finv : F -> F)
          (Fth : field_theory f0 f1 fadd fmul fsub fopp fdiv finv (@eq F)),
     (forall p : positive, phi F f0 f1 fadd fmul fopp (Zpos p) <> f0) ->
     forall (E : fname -> F -> F) (P : F -> F -> F) eps s rho f parts,
-      form_ok F f0 f1 fadd fmul fsub fopp fdiv finv E P eps s rho f ->
-      model_linearize eps s f = LOk parts ->
+      form_ok F eps s rho f -> model_linearize eps s f = LOk parts ->
       lin_rel F f0 f1 fadd fmul fsub fopp fdiv finv E P s rho f parts.
 Proof. exact model_linearize_sound. Qed.
 Print Assumptions C09_linearize_form.
 
-(* --- the full statement "linearize always returns the Gateaux derivative" is FALSE of the faithful model:
-       a form that does not depend on u has the zero form as derivative, but reduce(add, []) raises *)
-Theorem C09_linearize_total_refuted :
-  exists (s : dirmap) (f : form) g, model_linearize "eps" s f = LEmptyReduce /\ gateaux_form s f = Some g.
-Proof. exact model_linearize_total_refuted. Qed.
-Print Assumptions C09_linearize_total_refuted.
+(* history: before 910ffef the same form made reduce(add, []) raise *)
+Theorem C09_linearize_total_refuted_before_910ffef :
+  exists (s : dirmap) (f : form) g,
+    model_linearize_before_910ffef "eps" s f = LEmptyReduce /\ gateaux_form s f = Some g /\
+    model_linearize "eps" s f = LOk [].
+Proof. exact model_linearize_before_910ffef_refuted. Qed.
+Print Assumptions C09_linearize_total_refuted_before_910ffef.
 
-(* ... it holds as soon as one integral survives; and when none does, every derivative vanishes *)
-Theorem C09_linearize_total_partial :
-  forall eps s f parts, lin_parts eps s f = Some parts -> parts <> [] -> model_linearize eps s f = LOk parts.
-Proof. exact model_linearize_partial. Qed.
-Print Assumptions C09_linearize_total_partial.
-
-Theorem C09_linearize_empty_means_zero :
-  forall (F : Type) (f0 f1 : F) (fadd fmul fsub : F -> F -> F) (fopp : F -> F) (fdiv : F -> F -> F) (finv : F -> F)
-         (Fth : field_theory f0 f1 fadd fmul fsub fopp fdiv finv (@eq F)),
-    (forall p : positive, phi F f0 f1 fadd fmul fopp (Zpos p) <> f0) ->
-    forall (E : fname -> F -> F) (P : F -> F -> F) eps s rho f,
-      form_ok F f0 f1 fadd fmul fsub fopp fdiv finv E P eps s rho f ->
-      model_linearize eps s f = LEmptyReduce ->
-      lin_rel F f0 f1 fadd fmul fsub fopp fdiv finv E P s rho f [].
-Proof. exact model_linearize_empty. Qed.
-Print Assumptions C09_linearize_empty_means_zero.
-
-(* --- Newton: the linearised form paired with the negated original form *)
+(* --- Newton: the linearised form paired with the negated original form ... *)
 Theorem C09_newton :
   forall (F : Type) (f0 f1 : F) (fadd fmul fsub : F -> F -> F) (fopp : F -> F) (fdiv : F -> F -> F) (finv : F -> F)
-         (E : fname -> F -> F) (P : F -> F -> F) eps s rho f,
-    fst (model_newton eps s f) = model_linearize eps s f /\
-    map fst (snd (model_newton eps s f)) = map fst f /\
-    map (fun re => vev F f1 fadd fmul fsub fopp fdiv finv (phi F f0 f1 fadd fmul fopp) E P rho (snd re)) (snd (model_newton eps s f))
+         (E : fname -> F -> F) (P : F -> F -> F) eps s rho f lhs rhs,
+    model_newton eps s f = NOk lhs rhs ->
+    model_linearize eps s f = LOk lhs /\ lhs <> [] /\ map fst rhs = map fst f /\
+    map (fun re => vev F f1 fadd fmul fsub fopp fdiv finv (phi F f0 f1 fadd fmul fopp) E P rho (snd re)) rhs
     = map (fun re => fopp (vev F f1 fadd fmul fsub fopp fdiv finv (phi F f0 f1 fadd fmul fopp) E P rho (snd re))) f.
 Proof. exact model_newton_spec. Qed.
 Print Assumptions C09_newton.
+
+(* ... "NewtonIteration always returns this pair" is FALSE of the faithful model: for a form that does not depend on u
+   the linearisation is the zero form (the number 0) and NewtonIteration reads its attribute `variables` *)
+Theorem C09_newton_total_refuted :
+  exists (s : dirmap) (f : form), model_newton "eps" s f = NZeroFormNoEquation.
+Proof. exact model_newton_total_refuted. Qed.
+Print Assumptions C09_newton_total_refuted.
+
+Theorem C09_newton_total_partial : forall eps s f x parts,
+  model_linearize eps s f = LOk (x :: parts) ->
+  model_newton eps s f = NOk (x :: parts) (map (fun re => (fst re, TOpp (snd re))) f).
+Proof. exact model_newton_partial. Qed.
+Print Assumptions C09_newton_total_partial.
 
 (* ----------------------------------------------------------------- non-vacuity *)
 Open Scope string_scope.
@@ -154,10 +174,12 @@ Example C09_examples :
   let e1 := TMul (TPowN x_u 2) x_v in
   let e2 := TMul (TFn Fexp (TOpp x_u)) x_v in
   let e3 := TDiv (TMul x_ux x_vx) (TPowG (TAdd (TZ 1) (TPowN x_ux 2)) (TQ 1 2)) in
-  (exists r g, lin_poly "eps" s e1 = Some r /\ gateaux s e1 = Some g /\ tequiv r g = true) /\
+  (exists r r' g, lin_poly "eps" s e1 = Some r /\ lin_integrand "eps" s e1 = Some r' /\ gateaux s e1 = Some g /\
+                  tequiv r g = true /\ tequiv r' g = true) /\
   (exists r g, lin_integrand "eps" s e2 = Some r /\ gateaux s e2 = Some g /\ tequiv r g = true) /\
   (exists r g, lin_integrand "eps" s e3 = Some r /\ gateaux s e3 = Some g /\ tequiv r g = true) /\
   (exists p, model_linearize "eps" s [(0%nat, e1); (1%nat, TMul x_v x_vx)] = LOk [(0%nat, p)]).
 Proof.
-  repeat split; try (eexists; eexists; repeat split; vm_compute; reflexivity); try (eexists; vm_compute; reflexivity).
+  repeat split; try (eexists; eexists; eexists; repeat split; vm_compute; reflexivity);
+    try (eexists; eexists; repeat split; vm_compute; reflexivity); try (eexists; vm_compute; reflexivity).
 Qed.
